@@ -254,6 +254,25 @@ fn link(o: &Ontology, m: &str, tids: &[u32], table: &[u32], out: &mut Vec<String
     // (lhs, rhs, distance, size) through the three public iterators
     let cl: Vec<(usize, usize, f32, usize)> = linkage.cluster().map(|c| (c.lhs(), c.rhs(), c.distance(), c.len())).collect();
     let cl2: Vec<(usize, usize, u32, usize)> = (&linkage).into_iter().map(|c| (c.lhs(), c.rhs(), c.distance().to_bits(), c.len())).collect();
+    // back-to-front iteration yields the same merges in reverse
+    let rev: Vec<(usize, usize, u32, usize)> = linkage.cluster().rev().map(|c| (c.lhs(), c.rhs(), c.distance().to_bits(), c.len())).collect();
+    let mut both_ends: Vec<(usize, usize, u32, usize)> = vec![];
+    {
+        let mut it = linkage.cluster();
+        let mut back: Vec<(usize, usize, u32, usize)> = vec![];
+        loop {
+            match it.next() {
+                Some(c) => both_ends.push((c.lhs(), c.rhs(), c.distance().to_bits(), c.len())),
+                None => break,
+            }
+            match it.next_back() {
+                Some(c) => back.push((c.lhs(), c.rhs(), c.distance().to_bits(), c.len())),
+                None => break,
+            }
+        }
+        back.reverse();
+        both_ends.extend(back);
+    }
     let idx = linkage.indicies();
     let cl3: Vec<(usize, usize, u32, usize)> = linkage.into_cluster().map(|c| (c.lhs(), c.rhs(), c.distance().to_bits(), c.len())).collect();
     out.push(format!("LINK {} n={} merges={}", m, n, cl.len()));
@@ -274,6 +293,11 @@ fn link(o: &Ontology, m: &str, tids: &[u32], table: &[u32], out: &mut Vec<String
     let as_bits: Vec<(usize, usize, u32, usize)> = cl.iter().map(|c| (c.0, c.1, c.2.to_bits(), c.3)).collect();
     if as_bits != cl2 || as_bits != cl3 {
         fails.push("iterator-variants-disagree".to_string());
+    }
+    let mut fwd_rev = as_bits.clone();
+    fwd_rev.reverse();
+    if rev != fwd_rev || both_ends != as_bits {
+        fails.push("reverse-or-double-ended-iteration-disagrees".to_string());
     }
     if cl.len() != n.saturating_sub(1) {
         fails.push(format!("count merges={} n={}", cl.len(), n));
